@@ -17,21 +17,29 @@ def setup():
     with open(os.path.join(vlib.COQ, ".lock"), "w"):
         pass
     vlib.ensure_coqproject()
-    rc, out = vlib.sh(["timeout", "3000", "make", "-j16"], cwd=vlib.COQ, timeout=3100)
+    claimed = [l.strip() for l in open(os.path.join(vlib.VERIF, "tools", "claimed.txt")) if l.strip()]
+    targets = []
+    for pid in claimed:
+        meta = importlib.import_module(pid).META
+        targets.append("theories/Props/%s.vo" % pid)
+        targets += ["theories/" + t for t in meta.get("coq_targets", [])]
+    rc, out = vlib.sh(["timeout", "3000", "make", "-j16"] + sorted(set(targets)), cwd=vlib.COQ, timeout=3100)
     print(out[-3000:])
     if rc != 0:
         print("setup: coq build failed")
         return 1
+    # warm the Go build cache (best effort; every check builds its own harness anyway)
     ctx = vlib.Ctx("setup", "quick", 0)
     try:
         h = ctx.harness_module()
-        rc, out = vlib.sh(["go", "build", "-trimpath", "-tags", "verif", "./..."], cwd=h,
-                          env=vlib.go_env(), timeout=1800)
-        print(out[-3000:])
+        for c in sorted(os.listdir(os.path.join(h, "cmd"))):
+            rc2, out = vlib.sh(["go", "build", "-trimpath", "-tags", "verif", "-o", os.devnull, "./cmd/" + c],
+                               cwd=h, env=vlib.go_env(), timeout=900)
+            print("go build cmd/%s: %s" % (c, "ok" if rc2 == 0 else "FAILED (ignored in setup)\n" + out[-500:]))
     finally:
         import shutil
         shutil.rmtree(ctx.scratch, ignore_errors=True)
-    return 0 if rc == 0 else 1
+    return 0
 
 
 def main():
@@ -53,6 +61,7 @@ def main():
     mod = importlib.import_module(a.prop)
     ctx = vlib.Ctx(a.prop, a.tier, seed)
     ctx.allowed_axioms = mod.META.get("allowed_axioms", [])
+    ctx.coq_targets = mod.META.get("coq_targets", [])
     try:
         if a.replay:
             rc = mod.replay(ctx, a.replay)
